@@ -239,8 +239,14 @@ def run_case(ctx, sess, ptype, kind, payload, named):
     if not vin:
         errs = [e for e in att.rec.snapshot() if e.get("kind") == "readerr" and e["side"] == "v" and e["n"] >= mark]
         if errs and len(payload) > 32768:
-            # RFC 4253 6.1 only obliges implementations to take 32768-byte payloads / 35000-byte packets
-            ctx.count("oversize_packet_refused_by_packet_layer_not_judged")
+            # The statement quantifies over arbitrary payloads and the unchanged packet layer takes any length, so
+            # this is judged; it gets its own signature because RFC 4253 6.1 only obliges implementations to take
+            # 32768-byte payloads / 35000-byte packets (a deliberate cap would be listed as known under it).
+            ctx.count("oversize_packet_refused_by_packet_layer")
+            ctx.violation("unknown-type packet with a payload above 32768 bytes ends the session in the packet layer (%s)"
+                          % errs[0]["exc"],
+                          "the victim could not read a %d-byte packet of an unhandled type; no UNIMPLEMENTED, session ended"
+                          % len(payload), dict(case=dict(desc, payload=payload[:32], payload_len=len(payload)), readerr=errs[0]))
         elif errs:
             ctx.violation("victim packet layer rejected a legal packet of unknown type (%s)" % errs[0]["exc"],
                           "the victim could not read the packet carrying the unknown type; session ended",
